@@ -20,6 +20,7 @@ import os
 import sys
 import errno as _errno
 import re
+import time as _time
 
 REAL = {}
 for _n in ("getcwd", "stat", "lstat", "open", "write", "read", "close", "fsync", "replace", "rename", "remove", "unlink",
@@ -104,6 +105,10 @@ class Seam:
         os.ftruncate = s._os_ftruncate
         os.getpid = lambda: s.current.pid if s.current is not None else REAL["getpid"]()
         os.getcwd = lambda: s.current.cwd if (s.current is not None and not s.inside) else REAL["getcwd"]()
+        # wall-clock time as a simulated process sees it is the storage clock (whatever compares "now" with an mtime)
+        real_time, real_time_ns = _time.time, _time.time_ns
+        _time.time = lambda: s.clock if (s.current is not None and not s.inside) else real_time()
+        _time.time_ns = lambda: int(s.clock * 1e9) if (s.current is not None and not s.inside) else real_time_ns()
         builtins.open = s._open
         io.open = s._open
         importlib.machinery.SourceFileLoader = SimSourceFileLoader
